@@ -7,9 +7,9 @@
     Both are functions of the same node forest and of shared oracles with no assumed behaviour.
 
     FULL STATEMENT (all forests, all oracles):  strict_blocks F = false -> prom_accepts F = true.
-    It is FALSE of the faithful models and of the real pint/Prometheus pair: three machine-checked refutations
+    It is FALSE of the faithful models and of the real pint/Prometheus pair: four machine-checked refutations
     below, each with a witness file that the real pint passes and the real rulefmt.Parse refuses (known findings
-    C01-merge-not-alias, C01-tag-kind, C01-null-tag-text).  Three further classes (null record/alert/expr, group without a name, limit
+    C01-merge-not-alias, C01-tag-kind, C01-null-tag-text, C01-group-labels-alias).  Three further classes (null record/alert/expr, group without a name, limit
     that is no Go int) were repaired in pint (d65cbbf, cc77cdd, a6b0afc): their guards and the H_int hypothesis are gone
     from the theorem, and their former witnesses are now machine-checked to be BLOCKED by the pint model
     (C01_fixed_witnesses_blocked).
@@ -36,7 +36,7 @@
     pint's yaml.v3 and Prometheus' yaml.v3 decode the same bytes (same syntax errors, same forest). *)
 From Coq Require Import List String Ascii Arith Bool NArith.
 From PintV Require Import Common.Bytes Model.Yaml Model.Parser Model.Routing Model.PromLoader Model.Reader Model.Comments
-     Proofs.C19_relaxed Proofs.C01_prom Proofs.C01_rule Proofs.C01_group Proofs.C01_mask Run.C19 Run.C01.
+     Proofs.C19_relaxed Proofs.C01_prom Proofs.C01_rule Proofs.C01_group Proofs.C01_mask Proofs.C01_witness Run.C19 Run.C01.
 Import ListNotations.
 Open Scope string_scope.
 Open Scope list_scope.
@@ -56,6 +56,12 @@ Theorem C01_sound_partial :
       prom_accepts str_ok int_ok null_ok expr_ok dur_ok dur_zero metric_ok lname_ok lvalue_ok tmpl_prom (map fst ds) = true.
 Proof. intros. eapply stream_sound; eauto. Qed.
 Print Assumptions C01_sound_partial.
+
+(** The alias-free fragment of the earlier rounds is an instance of the guard. *)
+Theorem C01_plain_fragment_inside :
+  forall d root, n_kind d = KDocument -> n_content d = [root] -> plain_below root -> guards_doc d.
+Proof. exact plain_guards_doc. Qed.
+Print Assumptions C01_plain_fragment_inside.
 
 (** The rule-level core, usable on its own: an accepted rule mapping (aliases allowed in value position) decodes and passes
     Rule.Validate. *)
@@ -134,6 +140,18 @@ Definition w_null_tag_text : node :=
 Theorem C01_sound_refuted_null_tag_text : refutes w_null_tag_text.
 Proof. vm_compute. repeat split. Qed.
 Print Assumptions C01_sound_refuted_null_tag_text.
+Definition w_group_labels_alias_map : node := Mp "!!map" 6 18 65924 [Sc "!!str" "__name__" 7 7 439; Sc "!!str" "x" 7 17 439].
+Definition w_group_labels_alias : node :=
+  Dc 1 1 388 [Mp "!!map" 1 1 388 [Sc "!!str" "groups" 1 1 439; Sq "!!seq" 2 1 388
+    [Mp "!!map" 2 3 388 [Sc "!!str" "name" 2 3 439; Sc "!!str" "g1" 2 9 439; Sc "!!str" "rules" 3 3 439;
+       Sq "!!seq" 4 3 388 [Mp "!!map" 4 5 388 [Sc "!!str" "alert" 4 5 439; Sc "!!str" "A" 4 12 439; Sc "!!str" "expr" 5 5 439; Sc "!!str" "up == 0" 5 11 439;
+                                                Sc "!!str" "annotations" 6 5 439; w_group_labels_alias_map]]];
+     Mp "!!map" 8 3 388 [Sc "!!str" "name" 8 3 439; Sc "!!str" "g2" 8 9 439; Sc "!!str" "labels" 9 3 439;
+                         Node KAlias "!!map" "l" 9 11 407 [] (Some w_group_labels_alias_map) None;
+                         Sc "!!str" "rules" 10 3 439; Sq "!!seq" 10 10 388 []]]]].
+Theorem C01_sound_refuted_group_labels_alias : refutes w_group_labels_alias.
+Proof. vm_compute. repeat split. Qed.
+Print Assumptions C01_sound_refuted_group_labels_alias.
 Theorem C01_sound_refuted_merge_not_alias : refutes w_merge.
 Proof. vm_compute. repeat split. Qed.
 Print Assumptions C01_sound_refuted_merge_not_alias.
@@ -157,3 +175,9 @@ Example C01_nonvacuous :
   (model_blocks (mk w_ok 0) = false /\ model_prom (mk w_ok 0) = true) /\
   (model_blocks (mk w_bad_expr 0) = true /\ model_prom (mk w_bad_expr 0) = false).
 Proof. vm_compute. repeat split. Qed.
+
+(** Non-vacuity of the guard itself, with aliases: corpus/C01/alias_values.yaml (`expr: *e`, `for: *d`, `labels: *l`,
+    `summary: *s`) satisfies [guards_doc], pint passes it and Prometheus loads it. *)
+Example C01_nonvacuous_alias :
+  guards_doc w_alias /\ model_blocks (mk w_alias 0) = false /\ model_prom (mk w_alias 0) = true.
+Proof. split; [exact w_alias_guard|]. vm_compute. split; reflexivity. Qed.
